@@ -69,7 +69,9 @@ theorem C05_gen : Gen.HeaderLength = 20 ∧ Gen.MessageBufferLength = 1024 ∧
     -- after the declared length was checked against the header's own 20
     Gen.readMessageCalls = ["readHeader", "readBody"] ∧
     Gen.readBodyGuard = "(m.Header.MessageLength<HeaderLength)" ∧
-    Gen.readBodyLength = "int((m.Header.MessageLength-HeaderLength))" := by decide
+    Gen.readBodyLength = "int((m.Header.MessageLength-HeaderLength))" ∧
+    -- with a ReadTimeout the deadline is set anew before every message, whatever is buffered
+    Gen.readDeadlineArming = ["if c.server.ReadTimeout > 0 { c.rwc.SetReadDeadline(time.Now().Add(c.server.ReadTimeout)) }"] := by decide
 
 /-- non-vacuity: two fragmentations of a 24-byte stream (a 20-byte message and 4 stray bytes) -/
 example : (Src.mk [[1,0,0,20,0x80,0,1,1, 0,0,0,0, 0,0,0,1, 0,0,0,2, 9,9,9,9]] .eof).wf ∧
